@@ -225,12 +225,68 @@ def c_compile(ctx, case):
                 return
 
 
+class CompiledWithHelpers(compmod.CompiledExpression):
+    """the documented way to give generated code more names than `math`: override context()"""
+
+    def context(self):
+        return {**super().context(), "f": G.fn_f, "kk": 7}
+
+
+@check("C13.subclass")
+def c_subclass(ctx, case):
+    """A CompiledExpression SUBCLASS that supplies extra names through context(): the names are
+    globals of the generated code (not arguments), and a pickle round trip, copy() and
+    deepcopy() give back an object of the same class that behaves identically."""
+    e, listed, seed = case
+    import copy
+    rng = ctx.sub_rng("pts", seed)
+    allv = sorted(G.variables_of(e) - {"math", "numpy", "f", "kk"})
+    order = list(listed) + sorted(n for n in allv if n not in listed)
+    ctx.case(None)
+    ctx.count("subclass_compiled")
+    try:
+        fn = CompiledWithHelpers(e, list(listed))
+        clones = [("unpickled", pickle.loads(pickle.dumps(fn))), ("copied", copy.copy(fn)),
+                  ("deep-copied", copy.deepcopy(fn)),
+                  ("unpickled-twice", pickle.loads(pickle.dumps(pickle.loads(pickle.dumps(fn)))))]
+    except RecursionError:
+        raise
+    except Exception as ex:  # noqa: BLE001
+        ctx.fail("C13.subclass", case, f"raised:{type(ex).__name__}",
+                 f"CompiledExpression subclass over {e} listed {listed}: {type(ex).__name__}: {ex}")
+        return
+    for name, c in clones:
+        if type(c) is not CompiledWithHelpers:
+            ctx.fail("C13.subclass", case, f"{name}:class-lost",
+                     f"{name} clone of a CompiledExpression subclass is a {type(c).__name__}")
+    for _ in range(3):
+        env = point(rng, [n for n in order if n not in FIXED and n != "m"])
+        full = dict(fixed_env(), **env)
+        full["kk"] = 7
+        want, faults, _ = refsem.expected(e, full)
+        args = [full[n] for n in order]
+        for name, f in [("compiled", fn), *clones]:
+            ctx.case(None)
+            ctx.count("subclass_calls")
+            got = refsem.outcome(lambda: f(*args))
+            if not _agree(got, want, faults):
+                ctx.fail("C13.subclass", case, f"{name}:value:{got[0]}!={want[0]}",
+                         f"CompiledExpression subclass with context() names f, kk over {e}, "
+                         f"listed {listed} -> arguments {order} = {args}: {name} gives "
+                         f"{short(got)}; evaluator: {short(want)}")
+                return
+
+
 def _float_cancellation(e, full, got, want):
     """both are values, a float is involved, and they differ by less than 1e-9 of the largest
     intermediate value of the computation (exact rational evaluation of every subexpression)"""
     if got[0] != "v" or want[0] != "v":
         return False
-    if not (isinstance(got[1], float) or isinstance(want[1], float)):
+    if not (isinstance(got[1], float) or isinstance(want[1], float)
+            or any(isinstance(x, float) for x in G.walk(e))):
+        return False        # (math.trunc of a float product is an int that carries its rounding)
+    if isinstance(got[1], bool) or isinstance(want[1], bool) \
+            or not isinstance(got[1], (int, float, F)) or not isinstance(want[1], (int, float, F)):
         return False
     scale = 0
     with refsem.exact():
@@ -246,6 +302,15 @@ def _float_cancellation(e, full, got, want):
         return abs(got[1] - want[1]) <= 1e-9 * float(scale)
     except (OverflowError, TypeError, ValueError):
         return False
+
+
+def _cancels(ctx, e, full, got, want):
+    """regrouped float arithmetic (a*b*c emitted as a*(b*c)) next to a cancellation or below
+    math.trunc: see _float_cancellation"""
+    if _float_cancellation(e, full, got, want):
+        ctx.count("float_cancellation_point")
+        return True
+    return False
 
 
 def _call_with_ctx(f, args, full):
@@ -345,7 +410,7 @@ def c_ast(ctx, case):
             ctx.case(None)
             ctx.count("ast_evals")
             got = refsem.outcome(lambda: eval(prog, {"__builtins__": {}}, dict(full)))
-            if not _agree(got, want, faults):
+            if not _agree(got, want, faults) and not _cancels(ctx, e, full, got, want):
                 ctx.fail("C13.ast", case, f"{name}:value:{got[0]}!={want[0]}",
                          f"to_python_ast({e}) un-parses to {src!r}; at {env}: {short(got)}; "
                          f"evaluator: {short(want)}")
@@ -355,7 +420,7 @@ def c_ast(ctx, case):
             ctx.count("function_calls")
             names = sorted(G.variables_of(e))
             got = refsem.outcome(lambda: gen_fn(**{n: full[n] for n in names}))
-            if not _agree(got, want, faults):
+            if not _agree(got, want, faults) and not _cancels(ctx, e, full, got, want):
                 ctx.fail("C13.ast", case, f"function:value:{got[0]}!={want[0]}",
                          f"to_evaluatable_python_function({e}) = {fsrc!r}; at {env}: {short(got)}; "
                          f"evaluator: {short(want)}")
@@ -366,7 +431,7 @@ def c_ast(ctx, case):
             got = refsem.outcome(lambda: refsem.ev(back, full))
             if got[0] == "unk":
                 got = ("exc", "NameError")
-            if not _agree(got, want, faults):
+            if not _agree(got, want, faults) and not _cancels(ctx, e, full, got, want):
                 ctx.fail("C13.ast", case, f"from-ast:value:{got[0]}!={want[0]}",
                          f"ASTToPymbolic()(to_python_ast({e})) = {back!r}; at {env}: {short(got)}; "
                          f"evaluator: {short(want)}")
@@ -410,6 +475,12 @@ def workload(ctx):
             if k:
                 ctx.run("C13.compile", (e, [], False, rng.randrange(10**9)))   # nothing listed
             ctx.run("C13.ast", (e, rng.randrange(10**9)))
+            if i % 6 == 0:
+                e2 = p.Sum((p.Call(p.Variable("f"), (e, p.Variable("kk"))),
+                            p.Product((p.Variable("kk"), p.Variable("x")))))
+                free2 = sorted(G.variables_of(e2) - {"math", "f", "kk"})
+                ctx.run("C13.subclass", (e2, rng.sample(free2, rng.randint(0, len(free2))),
+                                         rng.randrange(10**9)))
         # the SAME constant (negative, float, bool) in several positions of one expression:
         # sum term / product factor / call argument first, then power base, exponent, operand
         # of a division or of a unary operator -- and the other way round
@@ -453,6 +524,7 @@ def workload(ctx):
             ctx.run("C13.ast", (e, i))
         for k, v in tr.handlers().items():
             ctx.count("handler:" + k, v)
+    ctx.floor("subclass_calls", 1000)
     ctx.floor("lazy_fault_shapes", 20)
     ctx.floor("repeated_constant_shapes", 100)
     ctx.floor("compiled", 2000)
